@@ -523,9 +523,9 @@ def run(ctx):
     for a in ARG_SPECIAL:
         cases.append(("fmt", b"h1", b"root", 7, a))
         cases.append(("fmt", r.choice(FHOSTS), r.choice(FUSERS), r.choice(FRANKS), a))
-    for _ in range(1500 if quick else 40000):
+    for _ in range(1500 if quick else 120000):
         cases.append(("fmt", r.choice(FHOSTS), r.choice(FUSERS), r.choice(FRANKS), gen_arg(r)))
-    for _ in range(300 if quick else 6000):
+    for _ in range(300 if quick else 20000):
         cases.append(("argv", r.choice(FHOSTS), r.choice(FUSERS), r.choice(FRANKS), gen_args(r)))
     part_fmt(ctx, eng, t, cases, "fmt-generated")
     ex = []
@@ -536,17 +536,17 @@ def run(ctx):
     ctx.log("substitution (unit): %d cases, %d problems" % (t.evals - ncorpus, t.bad))
     # 2. substitution through the real binary and the real exec module
     r = ctx.rng("exec")
-    part_exec(ctx, eng, t, [gen_exec_case(r, eng) for _ in range(150 if quick else 3000)])
+    part_exec(ctx, eng, t, [gen_exec_case(r, eng) for _ in range(150 if quick else 8000)])
     ctx.log("substitution (pdsh -R exec): done, %d problems so far" % t.bad)
     # 3. who is contacted how
     r = ctx.rng("reg")
-    part_reg(ctx, eng, t, [gen_reg_case(r, eng) for _ in range(450 if quick else 9000)])
+    part_reg(ctx, eng, t, [gen_reg_case(r, eng) for _ in range(450 if quick else 30000)])
     r = ctx.rng("raw")
-    part_raw(ctx, eng, t, [gen_raw_case(r, eng) for _ in range(80 if quick else 1200)])
+    part_raw(ctx, eng, t, [gen_raw_case(r, eng) for _ in range(80 if quick else 3000)])
     ctx.log("registry: done, %d problems so far" % t.bad)
     # 4. rsh request bytes
     r = ctx.rng("wire")
-    part_wire(ctx, eng, t, [gen_wire_case(r, k) for k in range(120 if quick else 600)])
+    part_wire(ctx, eng, t, [gen_wire_case(r, k) for k in range(120 if quick else 1200)])
     ctx.log("rsh wire: done, %d problems so far" % t.bad)
     have_input = any(v["kind"] != "no-failing-input-found" for v in ctx.violations)
     vlib.report_proof_break(ctx, have_input)
